@@ -172,7 +172,7 @@ func (c *c17eval) run(op string, a, b interface{}, formA, formB bool, opt drive.
 func c17(r *rep.Run) {
 	maxLen := 3
 	totals := []int{98, 99, 100, 101, 150}
-	r.SetBudget(150e9)
+	r.SetBudget(300e9)
 	if r.Thorough() {
 		totals = []int{50, 97, 98, 99, 100, 101, 102, 150, 199, 200, 201, 1000}
 		r.SetBudget(1800e9)
